@@ -111,8 +111,11 @@ impl Ctx {
         Box::new((0..total).filter(move |i| i % n == s))
     }
 
+    /// true when the workload of this worker should stop: its time budget is used up, or it has already recorded so many
+    /// violations that the verdict cannot change (a broken tree can make every case expensive, e.g. when each one runs
+    /// into a step budget; grinding through the rest would only turn a decided run into a watchdog timeout)
     pub fn out_of_time(&self) -> bool {
-        Instant::now() >= self.deadline
+        Instant::now() >= self.deadline || self.counters.get("violations_raw").cloned().unwrap_or(0) >= 200
     }
 
     pub fn rng(&self, label: &str, index: u64) -> Rng {
@@ -152,7 +155,14 @@ impl Ctx {
 
     pub fn violation(&mut self, symptom: &str, detail: &str, replay: Value) {
         if self.violations.len() < 50 {
-            self.violations.push(json!({"property": self.prop, "symptom": symptom, "detail": detail, "variant": self.variant, "replay": replay}));
+            let v = json!({"property": self.prop, "symptom": symptom, "detail": detail, "variant": self.variant, "replay": replay});
+            // persisted at once: a violation that was observed stays observed even if this worker later hangs or dies
+            if !self.out_path.is_empty() {
+                if let Ok(mut f) = std::fs::OpenOptions::new().create(true).append(true).open(format!("{}.viol", self.out_path)) {
+                    let _ = f.write_all(format!("{}\n", serde_json::to_string(&v).unwrap()).as_bytes());
+                }
+            }
+            self.violations.push(v);
         }
         self.cnt("violations_raw", 1);
     }
